@@ -382,7 +382,7 @@ func (r *Ref) dump(now int64) string {
 
 var (
 	names  = []string{"a.", "b."}
-	qtypes = []uint16{1, 28, 6, 16, 64, 65} // A, AAAA, SOA, TXT, SVCB, HTTPS
+	qtypes = []uint16{1, 28, 6, 16, 64, 65, 257} // A, AAAA, SOA, TXT, SVCB, HTTPS, CAA (a two-byte type whose low byte is A)
 	scopes = []string{"u1", "u2", "asis"}
 )
 
@@ -515,6 +515,8 @@ func qtName(t uint16) string {
 		return "SVCB"
 	case 65:
 		return "HTTPS"
+	case 257:
+		return "CAA"
 	}
 	return fmt.Sprintf("TYPE%d", t)
 }
